@@ -608,6 +608,53 @@ static void cap_check(void) {
                      CAP, ci->has_sse41, ci->has_sse42, ci->has_avx, ci->has_avx2, ci->has_avx512f, ci->has_avx512bw, ci->has_avx512vl, ci->has_avx512vbmi);
 }
 
+/* ---- first use: each dispatch wrapper as the FIRST library call of a fresh process, with and without carquet_init() before it (the table is built lazily by whichever
+ * wrapper runs first); the harness re-executes itself (`simd --firstuse <wrapper> <init>`), which makes exactly that one call and prints a digest of its output */
+static int firstuse_child(int w, int init) {
+    if (init) (void)carquet_init();
+    static int32_t a32[40]; static int64_t a64[40]; static uint32_t idx[40]; static float af[40]; static double ad[40]; static uint8_t b8[512], o8[512]; static int16_t l16[40]; uint64_t h = 1469598103934665603ull; int64_t r = 0;
+    for (int i = 0; i < 40; i++) { a32[i] = i * 7 - 3; a64[i] = (int64_t)i * 100003 - 5; idx[i] = (uint32_t)(i * 3 % 40); af[i] = (float)i * 0.5f; ad[i] = (double)i * -1.25; l16[i] = (int16_t)(i % 3); } for (int i = 0; i < 512; i++) b8[i] = (uint8_t)(i * 13 + 1);
+    const void* out = o8; size_t on = 0; static int32_t o32[40]; static int64_t o64[40]; static float of[40]; static double od[40]; memset(o8, 0, sizeof o8);
+    switch (w) {
+    case 0: carquet_dispatch_prefix_sum_i32(a32, 37, 5); out = a32; on = 37 * 4; break;
+    case 1: carquet_dispatch_prefix_sum_i64(a64, 37, 5); out = a64; on = 37 * 8; break;
+    case 2: carquet_dispatch_gather_i32(a32, idx, 37, o32); out = o32; on = 37 * 4; break;
+    case 3: carquet_dispatch_gather_i64(a64, idx, 37, o64); out = o64; on = 37 * 8; break;
+    case 4: carquet_dispatch_gather_float(af, idx, 37, of); out = of; on = 37 * 4; break;
+    case 5: carquet_dispatch_gather_double(ad, idx, 37, od); out = od; on = 37 * 8; break;
+    case 6: carquet_dispatch_byte_split_encode_float(af, 37, o8); on = 37 * 4; break;
+    case 7: carquet_dispatch_byte_split_decode_float(b8, 37, of); out = of; on = 37 * 4; break;
+    case 8: carquet_dispatch_byte_split_encode_double(ad, 37, o8); on = 37 * 8; break;
+    case 9: carquet_dispatch_byte_split_decode_double(b8, 37, od); out = od; on = 37 * 8; break;
+    case 10: carquet_dispatch_unpack_bools(b8, o8, 37); on = 37; break;
+    case 11: { uint8_t in[40]; for (int i = 0; i < 40; i++) in[i] = (uint8_t)((i * 5 >> 1) & 1); carquet_dispatch_pack_bools(in, o8, 37); on = 5; break; }
+    case 12: { int32_t v[40]; for (int i = 0; i < 40; i++) v[i] = i < 21 ? 9 : 4; r = carquet_dispatch_find_run_length_i32(v, 37); break; }
+    case 13: r = (int64_t)carquet_dispatch_crc32c(0, b8, 37); break;
+    case 14: { memcpy(o8, b8, 64); carquet_dispatch_match_copy(o8 + 16, o8 + 16 - 5, 30, 5); on = 64; break; }
+    case 15: { uint8_t m[64]; memcpy(m, b8, 64); memcpy(m + 32, m, 20); r = (int64_t)carquet_dispatch_match_length(m + 32, m, m + 64); break; }
+    case 16: r = carquet_dispatch_count_non_nulls(l16, 37, 2); break;
+    case 17: carquet_dispatch_build_null_bitmap(l16, 37, 2, o8); on = 5; break;
+    default: { int16_t o16[40]; carquet_dispatch_fill_def_levels(o16, 37, 3); memcpy(o8, o16, 74); on = 74; break; }
+    }
+    for (size_t i = 0; i < on; i++) h = (h ^ ((const uint8_t*)out)[i]) * 1099511628211ull;
+    printf("%016llx %lld\n", (unsigned long long)h, (long long)r); return 0;
+}
+static char g_self[512];
+static void firstuse_mode(void) {
+    static const char* EN[] = { "prefix_sum_i32", "prefix_sum_i64", "gather_i32", "gather_i64", "gather_float", "gather_double", "byte_split_encode_float", "byte_split_decode_float", "byte_split_encode_double", "byte_split_decode_double",
+                                "unpack_bools", "pack_bools", "find_run_length_i32", "crc32c", "match_copy", "match_length", "count_non_nulls", "build_null_bitmap", "fill_def_levels" };
+    mc_rule("C15 (first use): each of the 19 carquet_dispatch_* wrappers is the first library call of a fresh process (the harness re-executes itself), with and without carquet_init() before it; "
+            "its output must equal the output of the same call made later in a long-running process (whose equality with the scalar definition is the subject of the dispatch mode).");
+    mc_stage("first-use.every-dispatch-wrapper");
+    for (int w = 0; w < 19; w++) for (int init = 0; init < 2; init++) {
+        if (!mc_next()) continue;
+        mc_desc("firstuse:carquet_dispatch_%s;carquet_init-before=%d", EN[w], init); mc_case_key(mc_mix(0xf1a6, ((uint64_t)w << 1) | (uint64_t)init)); mc_nontrivial(); mc_feature("first-use");
+        char cmd[600]; snprintf(cmd, sizeof cmd, "%s --firstuse %d %d 2>&1", g_self, w, init); FILE* p = popen(cmd, "r"); char fresh[120] = ""; size_t k = p ? fread(fresh, 1, sizeof fresh - 1, p) : 0; fresh[k] = 0; int rc = p ? pclose(p) : -1;
+        char warm[120]; { int pfd[2]; if (pipe(pfd)) mc_harness_error("pipe"); fflush(stdout); int so = dup(1); dup2(pfd[1], 1); firstuse_child(w, 1); fflush(stdout); dup2(so, 1); close(so); close(pfd[1]); ssize_t n = read(pfd[0], warm, sizeof warm - 1); close(pfd[0]); warm[n > 0 ? n : 0] = 0; }
+        if (rc != 0 || strcmp(fresh, warm)) mc_fail("first-use.dispatch-wrapper", "carquet_dispatch_%s as the first library call of a process (carquet_init before it: %d) gives [%s] (exit status 0x%x); later in a process [%s]", EN[w], init, fresh, rc, warm);
+    }
+}
+
 /* ---- select mode: the kernel the dispatcher selects for EVERY capability set (all 256 subsets of the 8 x86 feature flags), identified by address, never executed:
  * a kernel of the SSE tier needs sse4.2, one of the AVX2 tier avx2 (the objects are compiled with -mavx2), one of the AVX-512 tier avx512f AND bw AND vl
  * (compiled with -mavx512f -mavx512bw -mavx512vl); a CPU or hypervisor may report any subset */
@@ -642,7 +689,7 @@ static void select_mode(void) {
 }
 
 static void enumerate(void) {
-    if (!strcmp(mc_mode(), "select")) { select_mode(); return; }
+    if (!strcmp(mc_mode(), "select")) { select_mode(); firstuse_mode(); return; }
     /* a previous child of this shard died inside a kernel: remember which one */
     if (HS->pending >= 0) { HS->crashes[HS->pending]++; HS->pending = -1; }
     static int inited;
@@ -683,5 +730,7 @@ int main(int argc, char** argv) {
     HS = mmap(NULL, sizeof *HS, PROT_READ | PROT_WRITE, MAP_SHARED | MAP_ANONYMOUS, -1, 0);
     if (HS == MAP_FAILED) { perror("mmap"); return 3; }
     memset(HS, 0, sizeof *HS); HS->pending = -1;
+    if (argc == 4 && !strcmp(argv[1], "--firstuse")) return firstuse_child(atoi(argv[2]), atoi(argv[3]));
+    if (readlink("/proc/self/exe", g_self, sizeof g_self - 1) <= 0) snprintf(g_self, sizeof g_self, "%s", argv[0]);
     return mc_main(argc, argv, "simd", enumerate);
 }
